@@ -29,6 +29,8 @@ type KernelSpec struct {
 	AssertNames map[int]string
 	CoverNames  map[int]string
 	Setup       func(k *Kernel)
+	Program     *Program // preloaded program (skips Load)
+	Fixed       map[int]int64
 }
 
 type KernelResult struct {
@@ -89,25 +91,35 @@ func RunKernel(spec *KernelSpec, solver string, timeoutMs int) (res *KernelResul
 			panic(r)
 		}
 	}()
-	src, err := spec.source()
-	if err != nil {
-		res.Error = err.Error()
-		res.Inconcl = true
-		return
+	var src string
+	var err error
+	if spec.Program == nil {
+		src, err = spec.source()
+		if err != nil {
+			res.Error = err.Error()
+			res.Inconcl = true
+			return
+		}
 	}
 	t0 := time.Now()
 	ovName := filepath.Join(spec.PkgDir, "zz_verif_kernel.go")
-	P, err := Load(spec.PkgDir, map[string][]byte{ovName: []byte(src)}, spec.Tags, ".")
-	if err != nil {
-		res.Error = "load: " + err.Error()
-		res.Inconcl = true
-		return
+	P := spec.Program
+	if P == nil {
+		P, err = Load(spec.PkgDir, map[string][]byte{ovName: []byte(src)}, spec.Tags, ".")
+		if err != nil {
+			res.Error = "load: " + err.Error()
+			res.Inconcl = true
+			return
+		}
 	}
 	res.LoadS = time.Since(t0).Seconds()
 	t1 := time.Now()
 	k := NewKernel(P, spec.PkgPath)
 	if spec.Fuel > 0 {
 		k.E.MaxFuel = spec.Fuel
+	}
+	for s, v := range spec.Fixed {
+		k.Fixed[s] = v
 	}
 	k.E.MergeAfterCall = true
 	k.E.MaxStack = spec.MaxStack
@@ -178,6 +190,24 @@ func RunKernel(spec *KernelSpec, solver string, timeoutMs int) (res *KernelResul
 		for name, v := range k.NdVars {
 			out[name] = sext64(m[v.ID], maxInt(v.W, 1))
 		}
+		for _, v := range k.E.B.Vars() {
+			if _, ok := m[v.ID]; ok {
+				out[v.Name] = sext64(m[v.ID], maxInt(v.W, 1))
+			}
+		}
+		for _, a := range k.E.B.Apps() {
+			if _, ok := m[a.ID]; !ok {
+				continue
+			}
+			key := a.Name + "("
+			for i, x := range a.Args {
+				if i > 0 {
+					key += ","
+				}
+				key += fmt.Sprint(sext64(m[x.ID], maxInt(x.W, 1)))
+			}
+			out[key+")"] = sext64(m[a.ID], maxInt(a.W, 1))
+		}
 		return out
 	}
 	type ob struct {
@@ -210,7 +240,7 @@ func RunKernel(spec *KernelSpec, solver string, timeoutMs int) (res *KernelResul
 	_ = B
 	for _, o := range obs {
 		t2 := time.Now()
-		v, m := check(o.t, k.ModelVars())
+		v, m := check(o.t, k.ModelTerms())
 		res.Obs = append(res.Obs, ObResult{Prop: spec.Prop, Name: o.name, Verdict: v.String(), WantSat: o.wantSat, Seconds: time.Since(t2).Seconds()})
 		if !o.wantSat {
 			res.Oblig++
